@@ -130,3 +130,39 @@ def lock_acquisitions(fn):
                     cell = (owner, name)
             out.append((bi, t, mode, cell))
     return out
+
+
+def no_child_operator(P):
+    """edge filter: do not follow calls into (other) operators' `next`/`reset` - gives an operator's OWN effects"""
+    ops = set()
+    for ti, impls in P.trait_impls.items():
+        if ti.endswith("::Operator::next") or ti.endswith("::Operator::reset") or ti.endswith("::PushOperator::push") \
+                or ti.endswith("::PushOperator::finalize"):
+            ops.update(impls)
+
+    def filt(x, y):
+        return y not in ops
+    return filt
+
+
+MUTATION_OPERATORS = ["CreateNodeOperator", "CreateEdgeOperator", "DeleteNodeOperator", "DeleteEdgeOperator",
+                      "SetPropertyOperator", "AddLabelOperator", "RemoveLabelOperator", "MergeOperator"]
+
+
+def mutation_operator_nexts(P):
+    return [P.method(o, "Operator", "next") for o in MUTATION_OPERATORS]
+
+
+def has_txid_cell(P, tags):
+    """does a tag set mention a struct field whose declared type carries a TxId (e.g. `tx_id: Option<TxId>`)"""
+    for t in tags:
+        if not t.startswith("cell:"):
+            continue
+        owner, _, field = t[5:].rpartition(".")
+        for aid, a in P.adts.items():
+            if aid.split("::")[-1] == owner:
+                for v in a["variants"]:
+                    for f in v["fields"]:
+                        if f[0] == field and "TxId" in f[1]:
+                            return True
+    return False
